@@ -316,6 +316,15 @@ func (e *SpecEnv) eval(x ast.Expr) (Val, error) {
 			if err != nil {
 				return Val{}, err
 			}
+			ftyp := st.Field(idx).Type()
+			if v.T == "nil" {
+				v = vc.mkVal(vc.S.zero(ftyp), ftyp)
+			}
+			if _, fIface := ftyp.Underlying().(*types.Interface); fIface && v.Typ != nil {
+				if _, vIface := v.Typ.Underlying().(*types.Interface); !vIface {
+					v = Val{T: vc.box(e.curState(), v, v.Typ), Typ: ftyp}
+				}
+			}
 			ft, _ := vc.firstClass(v)
 			fields[idx] = ft
 		}
